@@ -132,6 +132,40 @@ def canon_main(ctx, R):
     return fn
 
 
+def rule_duplicates_once(ctx, R="C03.11"):
+    ctx.rule(R, "the duplicate-definition reports reach the result exactly once: on every way through parse_files that builds a template library, exactly one collection that carries them (the archive's error list or the library's reports) is appended")
+    from pathcond import enumerate_paths
+
+    LIBF = "parser/src/lib.rs"
+    fn = find_fn(LIBF, "parse_files")
+    if fn is None:
+        return ctx.missing(R, "parse_files")
+    import parseval
+
+    if parseval.rule(ctx, R, aspects=["once", "file-reports", "archive-errors", "library-reports"]):
+        return
+    n = 0
+    bad = []
+    for conds, atoms, ex in enumerate_paths(fn["body"]):
+        if ex == "panic":
+            continue
+        libs = [c for a in atoms for c in walk(a) if c["k"] == "Call" and c["func"]["k"] == "Path" and c["func"]["path"].endswith("TemplateLibrary::new")]
+        if not libs:
+            continue
+        n += 1
+        apps = []
+        for a in atoms:
+            for m in walk(a):
+                if m["k"] == "MethodCall" and m["method"] in ("append", "extend") and render(strip(m["recv"])) == "reports" and m["args"]:
+                    arg = render(strip(m["args"][0])).replace(" ", "").replace("&mut", "")
+                    if arg.endswith(".reports") or arg in ("errors",) or "errors" in arg:
+                        apps.append(arg)
+        if len(apps) != 1:
+            bad.append("%s -> appended %s" % ([fact_str(c)[:50] for c in conds if c[0] in ("arm", "iflet")][-2:], apps))
+    ctx.floor(R, "ways through parse_files that build a library", n, 3)
+    ctx.check(R, "parse_files/duplicate-reports-appended-exactly-once", not bad, "; ".join(bad[:3]) or "%d ways, one duplicate-carrying collection appended on each" % n, site(LIBF, fn))
+
+
 def rule_exit_status(ctx, R="C03.2"):
     ctx.rule(R, "exit status is SUCCESS exactly when the displayed-report counter is 0; the summary prints that counter; the counter grows by the number of reports that passed the filters, and exactly those are emitted")
     fn = canon_main(ctx, R)
@@ -525,6 +559,7 @@ def rule_sarif(ctx):
         # .. on every call: the file must reflect this run even when nothing passed the filters (no stale file)
         cs_ = (conditions_to(sw_["body"], ser[0]) or []) if len(ser) == 1 else None
         ctx.check(R, "SarifWriter::write_reports/serialises-unconditionally", cs_ is not None and not cs_, "serialize_reports is only reached under %s" % (facts_str(cs_) if cs_ else "?"), site(WR, sw_))
+    rule_sarif_file(ctx, R)
     # SARIF result fields come from the report
     ts = None
     for q, f in fns_in_file(SC):
@@ -532,7 +567,7 @@ def rule_sarif(ctx):
             ts = f
     if ts is None:
         ctx.missing(R, "ToSarif for Report")
-    else:
+    elif not eval_report_to_sarif(ctx, R, ts):
         from astlib import inline_helpers
 
         ts = inline_helpers(ts, SC)
@@ -562,11 +597,381 @@ def rule_sarif(ctx):
     for q, f in fns_in_file(SC):
         if f["name"] == "to_sarif" and q.replace(" ", "") == "ToSarifforReportCollection":
             tc = f
-    if tc is not None:
+    if tc is not None and not eval_collection_to_sarif(ctx, R, tc):
         t = render(tc["body"]).replace(" ", "")
         pvc = sgrep.params(tc)
         ctx.check(R, "ReportCollection::to_sarif/one-result-per-report", bool(pvc) and sgrep.has(tc["body"], "self.iter().map(|__r| __r.to_sarif(__fl)).collect::<SarifResult<Vec<_>>>()", None, {"__fl": pvc[0]}), "", site(SC, tc))
         ctx.check(R, "ReportCollection::to_sarif/rules-keyed-by-name-and-id", sgrep.has(tc["body"], "self.iter().map(|__r| (__r.name(), __r.id())).collect::<HashSet<_>>()"), "", site(SC, tc))
+
+
+def eval_report_to_sarif(ctx, R, ts):
+    """`Report::to_sarif` by evaluation: the SARIF builders record what they are given; the report has 0..2 primary
+    and secondary labels whose conversion succeeds or fails.  The built result must carry the report's level, id and
+    message, one location per primary label and one related location per secondary label, in order; a label that
+    cannot be converted makes the conversion fail.  Returns True when decided."""
+    import itertools
+
+    import passeval
+    from finfun import S, Unsupported
+    from passeval import O, Panic, Sink
+
+    try:
+        w = passeval.PassWorld([], SC)
+    except Exception:  # noqa: BLE001
+        return False
+    w.lenient_opaque = True
+
+    def builder(kind):
+        fields = {}
+        me = []
+
+        def call(m, args):
+            if m == "build" and not args:
+                return S("Ok", ("BUILT", kind, dict(fields)))
+            if len(args) != 1:
+                raise Unsupported("builder method %s with %d arguments" % (m, len(args)))
+            fields[m] = args[0]
+            return me[0]
+
+        me.append(("O", "builder:" + kind, (("*", ("PY", call)),)))
+        return me[0]
+
+    def sarif_fn(name, args):
+        if name.endswith("Builder::default") and not args:
+            return builder(name[: -len("Builder::default")])
+        return ("K", "sarif::" + name, tuple(args))
+
+    w.opaque = (("sarif::", sarif_fn),)
+
+    def aslist(x):
+        if isinstance(x, Sink):
+            return list(x.items)
+        if isinstance(x, tuple) and x and x[0] == "L":
+            return list(x[1])
+        return None
+
+    bad = {}
+    n = 0
+    files = O("files")
+    for np_, ns_ in itertools.product((0, 1, 2), (0, 2)):
+        for fail in [None] + [("p", i) for i in range(np_)] + [("s", i) for i in range(ns_)]:
+            locs = {}
+
+            def label(kind, i, fail=fail, locs=locs):
+                loc = O("location-of-%s%d" % (kind, i))
+                locs[(kind, i)] = loc
+                err = O("error-of-%s%d" % (kind, i))
+                locs[("err", kind, i)] = err
+
+                def to_sarif(f_):
+                    if f_ is not files:
+                        raise Unsupported("label converted with %r" % (f_,))
+                    return S("Err", err) if fail == (kind, i) else S("Ok", loc)
+
+                return ("O", "label:%s%d" % (kind, i), (("to_sarif", ("PY", to_sarif)),))
+
+            LEVEL, ID, MSG = O("level"), O("id"), O("message")
+            prim = ("L", tuple(label("p", i) for i in range(np_)))
+            sec = ("L", tuple(label("s", i) for i in range(ns_)))
+            rep = ("O", "report", (("category", O("category", to_level=LEVEL)), ("id", ID), ("message", MSG), ("primary", prim), ("secondary", sec), ("name", O("name"))))
+            tag = "%d primary, %d secondary label(s)%s" % (np_, ns_, "" if fail is None else ", %s%d cannot be converted" % fail)
+            try:
+                res = w.call_fn(ts, [rep, files])
+            except Unsupported as u:
+                ctx.note("Report::to_sarif is outside the evaluator's subset (%s): shape obligations apply" % u)
+                return False
+            except Panic as p_:
+                bad.setdefault("error", "%s: panics (%s)" % (tag, p_))
+                continue
+            n += 1
+            if not (isinstance(res, tuple) and len(res) > 2 and res[0] == "S" and res[1] in ("Ok", "Err")):
+                raise_ = "%s: returns %r" % (tag, res)
+                bad.setdefault("error", raise_)
+                continue
+            if fail is not None:
+                if res[1] != "Err":
+                    bad.setdefault("error", "%s: the conversion succeeds" % tag)
+                continue
+            if res[1] != "Ok" or not (isinstance(res[2][0], tuple) and res[2][0][0] == "BUILT" and res[2][0][1] == "Result"):
+                bad.setdefault("error", "%s: returns %r" % (tag, res))
+                continue
+            f = res[2][0][2]
+            if f.get("level") is not LEVEL:
+                bad.setdefault("level", "%s: level is %r" % (tag, f.get("level")))
+            if f.get("rule_id") is not ID:
+                bad.setdefault("rule_id", "%s: rule_id is %r" % (tag, f.get("rule_id")))
+            m_ = f.get("message")
+            if not (isinstance(m_, tuple) and m_[0] == "BUILT" and m_[1] == "Message" and m_[2].get("text") is MSG):
+                bad.setdefault("message", "%s: message is %r" % (tag, m_))
+            r_ = f.get("rule")
+            if r_ is not None and not (isinstance(r_, tuple) and r_[0] == "BUILT" and r_[2].get("id") is ID):
+                bad.setdefault("rule_id", "%s: rule is %r" % (tag, r_))
+            for fld, kind, cnt in (("locations", "p", np_), ("related_locations", "s", ns_)):
+                got = aslist(f.get(fld))
+                want = [locs[(kind, i)] for i in range(cnt)]
+                if got is None or len(got) != len(want) or any(a is not b for a, b in zip(got, want)):
+                    bad.setdefault(fld, "%s: %s = %s" % (tag, fld, [g[1] if isinstance(g, tuple) and len(g) > 1 else g for g in (got or [])] if got is not None else f.get(fld)))
+    ctx.floor(R, "report worlds evaluated (to_sarif)", n, 15)
+    for fld, text in (("level", "the level of the report's category"), ("rule_id", "the report's id (also in the rule reference)"), ("message", "the report's message"), ("locations", "one location per primary label, in order"), ("related_locations", "one related location per secondary label, in order")):
+        ctx.check(R, "Report::to_sarif/builder.%s" % fld, fld not in bad, bad.get(fld, text), site(SC, ts))
+    ctx.check(R, "Report::to_sarif/label-errors-propagate", "error" not in bad, bad.get("error", "a label that cannot be converted fails the conversion; otherwise a Result is built"), site(SC, ts))
+    return True
+
+
+def _sarif_world():
+    """an evaluator for sarif_conversion.rs whose `sarif::*Builder`s record what they are given"""
+    import passeval
+    from finfun import S, Unsupported
+
+    w = passeval.PassWorld([SC], SC)
+    w.lenient_opaque = True
+
+    def builder(kind):
+        fields = {}
+        me = []
+
+        def call(m, args):
+            if m == "build" and not args:
+                return S("Ok", ("BUILT", kind, dict(fields)))
+            if len(args) != 1:
+                raise Unsupported("builder method %s with %d arguments" % (m, len(args)))
+            fields[m] = args[0]
+            return me[0]
+
+        me.append(("O", "builder:" + kind, (("*", ("PY", call)),)))
+        return me[0]
+
+    def sarif_fn(name, args):
+        if name.endswith("Builder::default") and not args:
+            return builder(name[: -len("Builder::default")])
+        return ("K", "sarif::" + name, tuple(args))
+
+    w.opaque = (("sarif::", sarif_fn),)
+    return w
+
+
+def _built(x, kind):
+    return isinstance(x, tuple) and len(x) == 3 and x[0] == "BUILT" and x[1] == kind
+
+
+def eval_label_to_sarif(ctx, R, fn):
+    """`ReportLabel::to_sarif` by evaluation: the storage answers a location query for (file, offset) with a line and a
+    column that encode the offset; the region built must carry the line / column of the label's start offset and of
+    its end offset, and the artifact the uri of the label's file.  Returns True when decided."""
+    from finfun import S, Unsupported
+    from passeval import O, Panic
+
+    try:
+        w = _sarif_world()
+    except Exception:  # noqa: BLE001
+        return False
+    bad = {}
+    n = 0
+    for start, end, fail in ((10, 25, None), (0, 0, None), (7, 400, None), (10, 25, "start"), (10, 25, "end"), (10, 25, "uri")):
+        URI, MSG = O("uri"), ("O", "message", ())
+        files_holder = []
+
+        def to_uri(f_, fail=fail, URI=URI):
+            if f_ is not files_holder[0]:
+                raise Unsupported("to_uri asked with %r" % (f_,))
+            return S("Err", O("unknown-file")) if fail == "uri" else S("Ok", URI)
+
+        fid = ("O", "file_id", (("to_uri", ("PY", to_uri)),))
+
+        def location(f_, off, fail=fail, start=start, end=end, fid=fid):
+            if f_ is not fid or not isinstance(off, int):
+                raise Unsupported("location asked with (%r, %r)" % (f_, off))
+            if (fail == "start" and off == start) or (fail == "end" and off == end):
+                return S("Err", O("no-such-location"))
+            return S("Ok", ("O", "location@%d" % off, (("line_number", 1000 + off), ("column_number", 5000 + off))))
+
+        storage = ("O", "storage", (("location", ("PY", location)),))
+        files = ("O", "files", (("to_storage", storage),))
+        files_holder.append(files)
+        rng = ("O", "range", (("start", start), ("end", end)))
+        label = ("O", "label", (("file_id", fid), ("range", rng), ("message", MSG)))
+        tag = "label %d..%d%s" % (start, end, "" if fail is None else ", %s lookup fails" % fail)
+        try:
+            res = w.call_fn(fn, [label, files])
+        except Unsupported as u:
+            ctx.note("ReportLabel::to_sarif is outside the evaluator's subset (%s): shape obligations apply" % u)
+            return False
+        except Panic as p_:
+            bad.setdefault("error", "%s: panics (%s)" % (tag, p_))
+            continue
+        n += 1
+        if not (isinstance(res, tuple) and len(res) > 2 and res[0] == "S" and res[1] in ("Ok", "Err")):
+            bad.setdefault("error", "%s: returns %r" % (tag, res))
+            continue
+        if fail is not None:
+            if res[1] != "Err":
+                bad.setdefault("error", "%s: the conversion succeeds" % tag)
+            continue
+        loc = res[2][0]
+        ph = loc[2].get("physical_location") if _built(loc, "Location") and res[1] == "Ok" else None
+        if not _built(ph, "PhysicalLocation"):
+            bad.setdefault("error", "%s: returns %r" % (tag, res))
+            continue
+        reg, art = ph[2].get("region"), ph[2].get("artifact_location")
+        want = {"start_line": 1000 + start, "start_column": 5000 + start, "end_line": 1000 + end, "end_column": 5000 + end}
+        for k_, v_ in want.items():
+            got = reg[2].get(k_) if _built(reg, "Region") else None
+            if got != v_:
+                what = "nothing" if got is None else ("the %s of offset %d" % ("line" if 1000 <= got < 5000 else "column", got % 1000 if got < 5000 else got - 5000) if isinstance(got, int) else repr(got))
+                bad.setdefault(k_, "%s: %s is %s" % (tag, k_, what))
+        if not (_built(art, "ArtifactLocation") and art[2].get("uri") is URI):
+            bad.setdefault("uri", "%s: artifact location is %r" % (tag, art))
+        m_ = loc[2].get("message")
+        if not (_built(m_, "Message") and m_[2].get("text") is MSG):
+            bad.setdefault("message", "%s: message is %r" % (tag, m_))
+    ctx.floor(R, "label worlds evaluated (to_sarif)", n, 6)
+    for k_ in ("start_line", "start_column", "end_line", "end_column"):
+        ctx.check(R, "ReportLabel::to_sarif/" + k_, k_ not in bad, bad.get(k_, "from the storage's lookup of the label's %s offset in the label's file" % k_.split("_")[0]), site(SC, fn))
+    ctx.check(R, "ReportLabel::to_sarif/uri-of-the-label-file", "uri" not in bad, bad.get("uri", "the uri of the label's file id"), site(SC, fn))
+    ctx.check(R, "ReportLabel::to_sarif/message-and-errors", "message" not in bad and "error" not in bad, bad.get("message") or bad.get("error") or "the label's message; a failing lookup fails the conversion", site(SC, fn))
+    return True
+
+
+def eval_collection_to_sarif(ctx, R, fn):
+    """`ReportCollection::to_sarif` by evaluation: one result per report, in order; one rule per distinct
+    (name, id); a report that cannot be converted fails the conversion.  Returns True when decided."""
+    from finfun import S, Unsupported
+    from passeval import O, Panic, Sink
+
+    try:
+        w = _sarif_world()
+    except Exception:  # noqa: BLE001
+        return False
+
+    def aslist(x):
+        if isinstance(x, Sink):
+            return list(x.items)
+        if isinstance(x, tuple) and x and x[0] == "L":
+            return list(x[1])
+        return None
+
+    bad = {}
+    n = 0
+    NAMES = {k_: ("O", "name:" + k_, ()) for k_ in "AB"}
+    IDS = {k_: ("O", "id:" + k_, ()) for k_ in "AB"}
+    for kinds, fail in (("", None), ("A", None), ("AB", None), ("AAB", None), ("ABAB", None), ("AAA", None), ("AB", 1), ("AAB", 0)):
+        files = O("files")
+        results = [O("result#%d" % i) for i in range(len(kinds))]
+
+        def mk(i, k_, fail=fail, files=files, results=results):
+            def to_sarif(f_):
+                if f_ is not files:
+                    raise Unsupported("report converted with %r" % (f_,))
+                return S("Err", O("error#%d" % i)) if fail == i else S("Ok", results[i])
+
+            return ("O", "report#%d" % i, (("name", NAMES[k_]), ("id", IDS[k_]), ("to_sarif", ("PY", to_sarif))))
+
+        coll = ("L", tuple(mk(i, k_) for i, k_ in enumerate(kinds)))
+        tag = "reports of kinds %s%s" % (list(kinds), "" if fail is None else ", report %d cannot be converted" % fail)
+        try:
+            res = w.call_fn(fn, [coll, files])
+        except Unsupported as u:
+            ctx.note("ReportCollection::to_sarif is outside the evaluator's subset (%s): shape obligations apply" % u)
+            return False
+        except Panic as p_:
+            bad.setdefault("error", "%s: panics (%s)" % (tag, p_))
+            continue
+        n += 1
+        if not (isinstance(res, tuple) and len(res) > 2 and res[0] == "S" and res[1] in ("Ok", "Err")):
+            bad.setdefault("error", "%s: returns %r" % (tag, res))
+            continue
+        if fail is not None:
+            if res[1] != "Err":
+                bad.setdefault("error", "%s: the conversion succeeds" % tag)
+            continue
+        top = res[2][0]
+        runs = aslist(top[2].get("runs")) if _built(top, "Sarif") and res[1] == "Ok" else None
+        if not runs or len(runs) != 1 or not _built(runs[0], "Run"):
+            bad.setdefault("error", "%s: returns %r" % (tag, res))
+            continue
+        got = aslist(runs[0][2].get("results"))
+        if got is None or len(got) != len(results) or any(a is not b for a, b in zip(got, results)):
+            bad.setdefault("results", "%s: %s result(s), expected the %d converted reports in order" % (tag, len(got) if got is not None else "no", len(results)))
+        tool = runs[0][2].get("tool")
+        drv = tool[2].get("driver") if _built(tool, "Tool") else None
+        rules = aslist(drv[2].get("rules")) if _built(drv, "ToolComponent") else None
+        pairs = sorted((r_[2].get("name")[1], r_[2].get("id")[1]) for r_ in (rules or []) if _built(r_, "ReportingDescriptor") and isinstance(r_[2].get("name"), tuple) and isinstance(r_[2].get("id"), tuple))
+        want = sorted(("name:" + k_, "id:" + k_) for k_ in set(kinds))
+        if rules is None or len(rules) != len(pairs) or pairs != want:
+            bad.setdefault("rules", "%s: rules %s, expected %s" % (tag, pairs if rules is not None else None, want))
+    ctx.floor(R, "collection worlds evaluated (to_sarif)", n, 8)
+    ctx.check(R, "ReportCollection::to_sarif/one-result-per-report", "results" not in bad and "error" not in bad, bad.get("results") or bad.get("error") or "every report converted, in order; a failing report fails the conversion", site(SC, fn))
+    ctx.check(R, "ReportCollection::to_sarif/rules-keyed-by-name-and-id", "rules" not in bad, bad.get("rules", "one rule per distinct (name, id)"), site(SC, fn))
+    return True
+
+
+def rule_sarif_file(ctx, R):
+    """the SARIF file holds this run's serialisation and nothing else: it is opened truncating (a file left by an
+    earlier run with more findings would otherwise keep its tail), under the configured path, and what is written
+    is the JSON text of `reports.to_sarif(..)` of the collection handed in"""
+    sr = None
+    for q, f in fns_in_file(WR):
+        if f["name"] == "serialize_reports" and "SarifWriter" in q:
+            sr = f
+    if sr is None:
+        return ctx.missing(R, "SarifWriter::serialize_reports")
+    pvs = sgrep.params(sr)
+    env = let_env(sr["body"])
+
+    def resolve(e, depth=0):
+        e = strip(e)
+        while e["k"] in ("Ref", "Try") or (e["k"] == "MethodCall" and e["method"] in ("context", "with_context", "map_err", "clone", "as_str", "as_bytes", "to_string", "as_ref", "unwrap", "expect", "as_path", "to_path_buf", "to_owned", "as_os_str")):
+            e = strip(e["e"] if e["k"] in ("Ref", "Try") else e["recv"])
+        if e["k"] == "Path" and e["path"] in env and depth < 6:
+            return resolve(env[e["path"]], depth + 1)
+        return e
+
+    opens = []
+    for n in walk(sr["body"]):
+        if n["k"] == "Call" and n["func"]["k"] == "Path":
+            p_ = n["func"]["path"]
+            if p_.endswith("File::create") or p_ in ("fs::write", "std::fs::write", "File::create_new", "fs::File::create", "std::fs::File::create"):
+                opens.append(("truncating", n, n["args"][0] if n["args"] else None))
+            elif p_.endswith("File::open") or p_.endswith("File::options"):
+                opens.append(("not truncating", n, n["args"][0] if n["args"] else None))
+        if n["k"] == "MethodCall" and n["method"] == "open" and len(n["args"]) == 1 and "OpenOptions" in render(n["recv"]):
+            chain = {}
+            r_ = n["recv"]
+            while r_["k"] == "MethodCall":
+                chain[r_["method"]] = render(strip(r_["args"][0])) if r_["args"] else ""
+                r_ = strip(r_["recv"])
+            trunc = chain.get("truncate") == "true" and chain.get("write") == "true" and chain.get("append", "false") == "false"
+            opens.append(("truncating" if trunc else "not truncating", n, n["args"][0]))
+    ok = len(opens) == 1 and opens[0][0] == "truncating" and opens[0][2] is not None and render(resolve(opens[0][2])).replace(" ", "") == "self.sarif_file"
+    ctx.check(R, "SarifWriter::serialize_reports/file-truncated-under-the-configured-path", ok, "the output file is opened by %s" % [("%s (%s)" % (render(n_)[:80], how)) for how, n_, _a in opens], site(WR, sr))
+    # what is written
+    written = []
+    for n in walk(sr["body"]):
+        if n["k"] == "Macro" and last(n["name"]) in ("write", "writeln") and n.get("parsed") and len(n.get("args") or []) >= 2:
+            fmt = n["args"][1]
+            fv = str(fmt.get("value")) if fmt.get("k") == "Lit" else ""
+            cap = re.fullmatch(r"\{(\w+)\}", fv)
+            if fv == "{}":
+                written.append((n, n["args"][2:]))
+            elif cap and len(n["args"]) == 2:
+                written.append((n, [{"k": "Path", "path": cap.group(1), "line": n.get("line", 0)}]))  # `{json}`: the captured variable
+            else:
+                written.append((n, None))
+        elif n["k"] == "MethodCall" and n["method"] in ("write_all", "write") and len(n["args"]) == 1 and n["recv"].get("k") in ("Path", "Ref", "MethodCall"):
+            written.append((n, n["args"]))
+        elif n["k"] == "Call" and n["func"]["k"] == "Path" and n["func"]["path"] in ("fs::write", "std::fs::write") and len(n["args"]) == 2:
+            written.append((n, n["args"][1:]))
+    okw = False
+    det = "writes: %s" % [render(n_)[:80] for n_, _a in written]
+    if len(written) == 1 and written[0][1] and len(written[0][1]) == 1:
+        j = resolve(written[0][1][0])
+        if j["k"] == "Call" and j["func"]["k"] == "Path" and re.search(r"serde_json::to_(string|string_pretty|vec|vec_pretty)$", j["func"]["path"]) and len(j["args"]) == 1:
+            sv = resolve(j["args"][0])
+            okw = len(pvs) >= 2 and sv["k"] == "MethodCall" and sv["method"] == "to_sarif" and render(strip(sv["recv"])) == pvs[0] and len(sv["args"]) == 1 and render(resolve(sv["args"][0])) == pvs[1]
+            det = "the text written is %s of %s" % (j["func"]["path"], render(sv)[:80])
+        cs_ = [c for c in (conditions_to(sr["body"], written[0][0]) or []) if c[0] != "notall" or "Err" not in fact_str(c)]
+        okw = okw and not [c for c in cs_ if c[0] in ("if", "iflet", "arm", "loop")]
+    ctx.check(R, "SarifWriter::serialize_reports/writes-the-serialisation-of-the-given-reports", okw, det, site(WR, sr))
 
 
 def rule_region(ctx, R="C03.8"):
@@ -577,6 +982,8 @@ def rule_region(ctx, R="C03.8"):
             fn = f
     if fn is None:
         return ctx.missing(R, "ToSarif for ReportLabel")
+    if eval_label_to_sarif(ctx, R, fn):
+        return
     env = let_env(fn["body"])
 
     def lookup(name):
@@ -924,6 +1331,7 @@ def rule_ids(ctx):
 
 def run(ctx):
     rule_drain(ctx)
+    rule_duplicates_once(ctx)
     rule_exit_status(ctx)
     rule_sarif(ctx)
     rule_filter_laws(ctx)
